@@ -15,7 +15,8 @@ RULE_TEXT = ("C12-I: every construction of ParseError::Incomplete lies on a path
              "test of the input leads to Incomplete; C12-M: Incomplete of a newline-transparent parser is never masked "
              "(= C08-I); C12-D: every take_while site either has a class without byte 10 (cannot run to the end of "
              "newline-terminated input) or is followed, on the remainder, by a mandatory tag whose failure is propagated; "
-             "C12-G: every accepted unit passes a strict consumer (>= 1 byte).")
+             "C12-G: every accepted unit passes a strict consumer (>= 1 byte)."
+             " C12-PR: the contracts of the parser combinators the skeleton builds on are read from their bodies - satisfy (accept first byte iff pred / soft error / Incomplete on empty), take_while (never fails; longest prefix, position() form or counting-loop form), optional (never fails; Some(value) or input untouched), tag(b) = satisfy(== b).")
 
 
 def run(ck):
